@@ -76,6 +76,9 @@ func encodeAll(P *Prog) []*Enc {
 		if c := P.Spec.Contracts[k]; c != nil && c.Trusted {
 			continue // contract assumed, body not checked (listed in the evidence as a contract pragma)
 		}
+		if strings.HasPrefix(k, "parser.yyAction_") && P.Spec.Contracts[k] == nil {
+			continue // extracted semantic action without a contract: stays inside the trusted driver
+		}
 		keys = append(keys, k)
 	}
 	res := make([]*Enc, len(keys))
@@ -702,7 +705,7 @@ func vacuityGuard(encs []*Enc, prop, tier string) string {
 		}
 		if tier == "thorough" {
 			for i, c := range e.covers {
-				jobs = append(jobs, job{e, &Obl{Name: fmt.Sprintf("%s/vacuity/return#%d", e.key, i), Class: "vacuity-return", Prefix: c.prefix, Reach: c.reach, Goal: TFalse, Func: e.key, Blk: c.blk, Budget: 3}})
+				jobs = append(jobs, job{e, &Obl{Name: fmt.Sprintf("%s/vacuity/return#%d", e.key, i), Class: "vacuity-return", Prefix: c.prefix, Reach: c.reach, Goal: TFalse, Func: e.key, Blk: c.blk, Budget: 3, Pos: c.pos}})
 			}
 		}
 	}
@@ -719,6 +722,10 @@ func vacuityGuard(encs []*Enc, prop, tier string) string {
 		hasRet[v.Obl.Func] = true
 		if v.Status != "discharged" {
 			reachable[v.Obl.Func] = true
+		} else {
+			// one unreachable return among several: dead code, or a path excluded by a stated assumption - or a local
+			// vacuity; printed so that it can be looked at (recoverFunc's recovered path was found this way)
+			fmt.Println("NOTE: return provably unreachable under the contracts:", v.Obl.Name, v.Obl.Pos)
 		}
 	}
 	for f := range hasRet {
